@@ -60,7 +60,8 @@ def stOk (s : St) : Bool :=
           (s.streamChannels = 1 ∨ s.streamChannels = 2) ∧
           (BW_NB ≤ s.bandwidth ∧ s.bandwidth ≤ BW_FB) ∧
           (s.prevMode = 0 ∨ (MODE_SILK_ONLY ≤ s.prevMode ∧ s.prevMode ≤ MODE_CELT_ONLY)) ∧
-          (0 ≤ s.complexity ∧ s.complexity ≤ 10) ∧ (0 ≤ s.lossPerc ∧ s.lossPerc ≤ 100))
+          (0 ≤ s.complexity ∧ s.complexity ≤ 10) ∧ (0 ≤ s.lossPerc ∧ s.lossPerc ≤ 100) ∧
+          (s.mode = 0 ∨ (MODE_SILK_ONLY ≤ s.mode ∧ s.mode ≤ MODE_CELT_ONLY)))
 
 /-- Frame sizes `frame_size_select` lets through: 2.5, 5, 10, 20, 40, 60, 80, 100, 120 ms. -/
 def legalFrame (fs frameSize : Int) : Bool :=
